@@ -132,7 +132,7 @@ theorem swap_involutive (o : Op) : o.swap.swap = o := by cases o <;> rfl
 
 /-- `lit op var` is evaluated as `var (swap op) lit`: for integers this is the same truth value as
     comparing the literal with the variable's value under the original operator. -/
-theorem literal_left_int (a : Int) (o : Op) (litText : Bytes) (r : Int) (hr : parseIntLit litText = some r) :
+theorem literal_left_int (a : Int) (o : Op) (litText : Bytes) (r : Int) (hr : parseInt64Lit litText = some r) :
     (Val.int a).cmpLit o.swap litText = some (cmpOrd o (compare r a)) := by
   simp [Val.cmpLit, hr, swap_int o r a]
 
